@@ -9,12 +9,12 @@ namespace vf {
 
 const char* property_id() { return "C07"; }
 unsigned case_timeout_s() { return 300; }
-uint64_t num_cases(bool thorough) { return (thorough ? 15000 : 2000) * c07::num_types(); }   // item types round-robin
+uint64_t num_cases(bool thorough) { return c07::cases_per_type(thorough) * c07::num_types(); }   // item types round-robin
 void final_report() {}
 
 struct ReqFam {
   static const char* name() { return "req"; }
-  template<typename T> using SK = req_sketch<T, typename c07::Tr<T>::Cmp>;
+  template<typename K> using SK = req_sketch<typename c07::Tr<K>::T, typename c07::Tr<K>::Cmp>;
   struct Cfg { bool hra; };
   static Cfg cfg(Rng& r) { Cfg c; c.hra = r.coin(); return c; }
   static std::string cfg_str(const Cfg& c) { return c.hra ? "req-HRA" : "req-LRA"; }
@@ -24,7 +24,18 @@ struct ReqFam {
     if (thorough && r.chance(0.1)) return r.pick({100u, 200u, 254u});
     return ks[r.below(sizeof ks / sizeof ks[0])];
   }
-  template<typename T> static SK<T> make(uint32_t k, const Cfg& c) { return SK<T>(static_cast<uint16_t>(k), c.hra); }
+  template<typename K> static SK<K> make(uint32_t k, const Cfg& c, const typename c07::Tr<K>::Cmp& cmp) { return SK<K>(static_cast<uint16_t>(k), c.hra, cmp); }
+  template<typename K> static SK<K> roundtrip(const SK<K>& sk, const typename c07::Tr<K>::Cmp& cmp, bool stream) {
+    typedef typename c07::Tr<K>::T T;
+    if (stream) {
+      std::stringstream ss(std::ios::in | std::ios::out | std::ios::binary);
+      sk.serialize(ss);
+      return SK<K>::deserialize(ss, serde<T>(), cmp);
+    }
+    const auto bytes = sk.serialize();
+    return SK<K>::deserialize(bytes.data(), bytes.size(), serde<T>(), cmp);
+  }
+
   static uint64_t exact_cap(uint32_t k) { const uint32_t ke = std::max<uint32_t>(k & ~1u, 4); return 6ULL * ke - 1; }
 
   // the sketch states its capacity in to_string(): "Capacity items : <sum of nominal compactor capacities>"
